@@ -876,7 +876,7 @@ def Array_iadd_prefactor_other(self, prefactor, other):
             raise ValueError("Arrays can't have different `qtotal`!")
     if prefactor == 0.:
         # nothing to add; the dtype follows the usual promotion (like ``self += 0. * other`` in the Python version)
-        zero_dtype = np.result_type(self.dtype, other.dtype, prefactor)
+        zero_dtype = np.result_type(self.dtype, other.dtype)  # (`0. * other` keeps the dtype of `other`)
         if self.dtype != zero_dtype:
             self.dtype = zero_dtype
             self._data = [d.astype(zero_dtype) for d in self._data]
